@@ -135,6 +135,34 @@ func sizeLeaves(fn *ssa.Function) map[string]bool {
 			walk(x.X)
 			return
 		}
+		// a module helper that is not one of the known size functions is expanded in place
+		if call := sizeHelperCall(v); call != nil && depthGuard < 3 {
+			callee := call.Call.StaticCallee()
+			depthGuard++
+			sub := sizeLeaves(callee)
+			depthGuard--
+			for l := range sub {
+				// substitute the helper's descriptor receiver and pointer parameter by the caller's
+				for i, prm := range callee.Params {
+					if i >= len(call.Call.Args) {
+						break
+					}
+					switch {
+					case namedOf(prm.Type()) == "tType":
+						l = strings.ReplaceAll(l, "dyn:"+prm.Name()+".", "dyn:"+path(call.Call.Args[i])+".")
+						l = strings.ReplaceAll(l, "ld:"+prm.Name()+".", "ld:"+path(call.Call.Args[i])+".")
+						if strings.HasPrefix(l, prm.Name()+".") {
+							l = path(call.Call.Args[i]) + l[len(prm.Name()):]
+						}
+					case isUnsafePointer(prm.Type()):
+						l = strings.ReplaceAll(l, "("+prm.Name()+")", "("+ptrClass(call.Call.Args[i])+")")
+						l = strings.ReplaceAll(l, " at "+prm.Name()+")", " at "+ptrClass(call.Call.Args[i])+")")
+					}
+				}
+				out[l] = true
+			}
+			return
+		}
 		out[leafDesc(v)] = true
 	}
 	for _, b := range fn.Blocks {
@@ -145,6 +173,36 @@ func sizeLeaves(fn *ssa.Function) map[string]bool {
 		walk(ret.Results[0])
 	}
 	return out
+}
+
+var depthGuard int
+
+var knownSizeFns = map[string]bool{"encodedStringSize": true, "tType.EncodedSize": true, "tType.encodedMapSize": true, "tType.encodedListSize": true, "maplen": true, "tField.EncodedSize": true}
+
+// sizeHelperCall: v is (the first result of) a static call to a module size helper that is not one of the known size functions.
+func sizeHelperCall(v ssa.Value) *ssa.Call {
+	v = stripConv(v)
+	var call *ssa.Call
+	switch x := v.(type) {
+	case *ssa.Call:
+		call = x
+	case *ssa.Extract:
+		if x.Index == 0 {
+			call, _ = x.Tuple.(*ssa.Call)
+		}
+	}
+	if call == nil {
+		return nil
+	}
+	f := call.Call.StaticCallee()
+	if f == nil || f.Blocks == nil || fnPkgPath(f) != pkgReflect || knownSizeFns[shortFn(f)] {
+		return nil
+	}
+	r := f.Signature.Results()
+	if r.Len() == 0 || !isInt(r.At(0).Type()) {
+		return nil
+	}
+	return call
 }
 
 func ruleSizerTerms(c *Ctx) []Ob {
